@@ -306,8 +306,15 @@ class Scenario:
         table = dict(table or {})
         must = set(must_decide)
 
-        def decide(node):
+        def decide(node, penv=None):
             e = self.resolved(node)
+            if penv:
+                # locals that hold a constant on this path (selector / flag variables) are written as that constant
+                def fn(x):
+                    if isinstance(x, ast.Name) and isinstance(x.ctx, ast.Load) and x.id in penv and x.id not in env:
+                        return ast.copy_location(ast.Constant(value=penv[x.id]), x)
+                    return None
+                e = rebuild(e, fn)
             if hook is not None:
                 v = hook(e)
                 if v is not None:
@@ -319,8 +326,63 @@ class Scenario:
             return v
         return decide
 
+    def _tracked(self):
+        """locals that are assigned a literal somewhere and are never bound by a loop / with / handler: followed per path."""
+        if not hasattr(self, '_trk'):
+            lit, other = set(), set()
+            for n in self.cfg.nodes:
+                a = n.ast
+                if a is None:
+                    continue
+                if n.kind == 'stmt' and isinstance(a, ast.Assign) and len(a.targets) == 1 and isinstance(a.targets[0], ast.Name) \
+                        and isinstance(a.value, ast.Constant) and isinstance(a.value.value, (int, str, bool, type(None))):
+                    lit.add(a.targets[0].id)
+                elif n.kind in ('for', 'handler') or isinstance(a, (ast.With, ast.AugAssign, ast.AnnAssign)):
+                    other |= set(Flow.bound_names(n))
+            self._trk = lit - other - set(self.f.params)
+        return self._trk
+
     def reach(self, env=None, table=None, blocked=(), starts=None, must_decide=(), hook=None, what=''):
-        return reach(self.cfg, self.decider(env, table, must_decide, hook, what), starts=starts, blocked=blocked)
+        decide = self.decider(env, table, must_decide, hook, what)
+        tracked = self._tracked() - set(env or {})
+        if not tracked:
+            return reach(self.cfg, decide, starts=starts, blocked=blocked)
+        # path-sensitive in the tracked locals: states are (node, constants known on this path)
+        cfg = self.cfg
+        blocked = set(blocked)
+        seen = set()
+        out = set()
+        stack = [(s, frozenset()) for s in (starts or [cfg.entry]) if s not in blocked]
+        budget = 60000
+        while stack:
+            n, pe = stack.pop()
+            if (n, pe) in seen:
+                continue
+            seen.add((n, pe))
+            out.add(n)
+            budget -= 1
+            if budget <= 0:
+                return reach(cfg, decide, starts=starts, blocked=blocked)
+            penv = dict(pe)
+            v = decide(n, penv) if (n.kind == 'test' and n.ast is not None) else None
+            bound = [b for b in Flow.bound_names(n) if b in tracked] if n.ast is not None else []
+            if bound:
+                a = n.ast
+                for b in bound:
+                    penv.pop(b, None)
+                if isinstance(a, ast.Assign) and len(a.targets) == 1 and isinstance(a.targets[0], ast.Name) \
+                        and isinstance(a.value, ast.Constant) and isinstance(a.value.value, (int, str, bool, type(None))):
+                    penv[a.targets[0].id] = a.value.value
+                elif isinstance(a, ast.Assign) and len(a.targets) == 1 and isinstance(a.targets[0], ast.Name) \
+                        and isinstance(a.value, ast.Name) and a.value.id in dict(pe):
+                    penv[a.targets[0].id] = dict(pe)[a.value.id]
+            npe = frozenset(penv.items())
+            for (m, lab) in cfg.succ[n]:
+                if v is not None and lab in (True, False) and lab != v:
+                    continue
+                if m not in blocked:
+                    stack.append((m, npe))
+        return out
 
     def nodes_of_stmt(self, sub):
         """the CFG nodes at which the statement containing `sub` is executed."""
@@ -784,6 +846,45 @@ def _rejects(stmts):
     return False
 
 
+def _string_values(flow, at, name, depth=0):
+    """the set of string constants the local `name` can hold on entry to CFG node `at`, when every definition that reaches
+    it is a literal, a literal appended to the previous value (`x += 'c'`, `x = x + 'c'`) or a choice between literals;
+    None otherwise."""
+    if depth > 6:
+        return None
+    defs = flow.IN.get(at, {}).get(name)
+    if not defs or Flow.ENTRY in defs:
+        return None
+    out = set()
+    for d in defs:
+        a = d.ast
+        if isinstance(a, ast.Assign) and len(a.targets) == 1 and isinstance(a.targets[0], ast.Name):
+            v = a.value
+            if isinstance(v, ast.Constant) and isinstance(v.value, str):
+                out.add(v.value)
+                continue
+            if isinstance(v, ast.IfExp) and all(isinstance(b, ast.Constant) and isinstance(b.value, str) for b in (v.body, v.orelse)):
+                out |= {v.body.value, v.orelse.value}
+                continue
+            if isinstance(v, ast.BinOp) and isinstance(v.op, ast.Add) and isinstance(v.left, ast.Name) and v.left.id == name \
+                    and isinstance(v.right, ast.Constant) and isinstance(v.right.value, str):
+                prev = _string_values(flow, d, name, depth + 1)
+                if prev is None:
+                    return None
+                out |= {p + v.right.value for p in prev}
+                continue
+            return None
+        if isinstance(a, ast.AugAssign) and isinstance(a.op, ast.Add) and isinstance(a.value, ast.Constant) \
+                and isinstance(a.value.value, str):
+            prev = _string_values(flow, d, name, depth + 1)
+            if prev is None:
+                return None
+            out |= {p + a.value.value for p in prev}
+            continue
+        return None
+    return out or None
+
+
 def _block_exits(stmts):
     return bool(stmts) and isinstance(stmts[-1], (ast.Continue, ast.Break, ast.Return, ast.Raise))
 
@@ -846,20 +947,9 @@ class CharClass:
         if at is not None:
             for x in ast.walk(self.test):
                 if isinstance(x, ast.Name) and x.id != self.var and x.id not in self.alts:
-                    defs = flow.IN.get(at, {}).get(x.id)
-                    if not defs or Flow.ENTRY in defs:
-                        continue
-                    vals = []
-                    for d in defs:
-                        a = d.ast
-                        if isinstance(a, ast.Assign) and len(a.targets) == 1 and isinstance(a.targets[0], ast.Name) \
-                                and isinstance(a.value, ast.Constant) and isinstance(a.value.value, str):
-                            vals.append(a.value.value)
-                        else:
-                            vals = None
-                            break
+                    vals = _string_values(flow, at, x.id)
                     if vals:
-                        self.alts[x.id] = sorted(set(vals))
+                        self.alts[x.id] = sorted(vals)
 
     def passes(self, c):
         """True / False / None (depends on something else than the character)."""
